@@ -493,6 +493,10 @@ impl World {
                 }
             }
             "restart" => {
+                // a pay command that was still running keeps its group of parts: later commands get a new one
+                if self.node.pending_methods().iter().any(|m| m == "pay") {
+                    self.sim.pay_groups += 1;
+                }
                 for (_, _, h) in self.handles.drain(..) {
                     h.abort();
                 }
